@@ -39,6 +39,16 @@ declare -A ALSO=(
   [C08-deferred-fieldset-window-overwrites-next-key]="C13"
   [C15-last-parameter-mutator-wins]="C03"
   [C04-adderror-returns-early-on-done-context]="C06"
+  [C06-deferred-group-decrements-own-pending]="C13"
+  [C13-multipart-queue-lock-split-backing-array-reuse]="C12"
+)
+# memory-level races: no interleaving of synchronisation operations exposes them, the
+# free-running -race pass of the thorough tier does
+declare -A THOROUGH=(
+  [C06-adderror-appends-under-read-lock]=1
+  [C06-isconcurrent-by-type-fields-plain-increment]=1
+  [C06-registerextension-check-before-lock]=1
+  [C03-lazy-extension-chain-stale-flag-cleared-early]=1
 )
 echo "# Seeded changes vs. the checks ($tier tier, $(date -u +%FT%TZ), /repo $(git -C /repo log --format=%h -1))" > $out
 echo >> $out
@@ -55,4 +65,13 @@ for d in seeded/C*/; do
     echo "$name [$p]: $r"
     case "$r" in DETECTED*) break;; esac
   done
+  case "$r" in DETECTED*) ;; *)
+    if [ -n "${THOROUGH[$name]:-}" ] && [ "$tier" = quick ]; then
+      res=$(tools/try_seed.sh $d/patch.diff $prop thorough 2>&1)
+      r=$(echo "$res" | grep "^RESULT" | sed 's/^RESULT [^:]*: //')
+      sig=$(echo "$res" | grep "signature:" | head -1 | sed 's/^ *signature: //' | cut -c1-90 | tr '|' '/')
+      echo "| $name | $prop (thorough) | $r | $sig |" >> $out
+      echo "$name [$prop thorough]: $r"
+    fi;;
+  esac
 done
